@@ -117,6 +117,21 @@ func c08EncodedSize(types []string, vals []any) int {
 	return n
 }
 
+func c08Schemas4() [][]string {
+	types := []string{"int", "bigint", "varchar", "boolean"}
+	var out [][]string
+	for _, a := range types {
+		for _, b := range types {
+			for _, c := range types {
+				for _, d := range types {
+					out = append(out, []string{a, b, c, d})
+				}
+			}
+		}
+	}
+	return out
+}
+
 func c08Schemas() [][]string {
 	types := []string{"int", "bigint", "varchar", "boolean"}
 	var out [][]string
@@ -200,10 +215,13 @@ func clipAny(v any) string {
 
 func runC08(env *lib.Env, rep *lib.Report) {
 	schemas := c08Schemas()
+	if env.Thorough() {
+		schemas = append(schemas, c08Schemas4()...)
+	}
 	paths := []string{"direct", "sqltext"}
 	ops := []string{"insert", "update"}
 	journeys := []string{"cache->flush(tiny cache)->restart", "crash-recovery-from-log"}
-	rep.Bounds["schemas"] = fmt.Sprintf("%d (all orders of 1..3 columns over int, bigint, varchar, boolean)", len(schemas))
+	rep.Bounds["schemas"] = fmt.Sprintf("%d (all orders of 1..3 columns (thorough: 1..4) over int, bigint, varchar, boolean)", len(schemas))
 	rep.Bounds["supply paths"] = paths
 	rep.Bounds["operations"] = ops
 	rep.Bounds["journeys"] = journeys
